@@ -887,7 +887,8 @@ func run(c *lib.Ctx) error {
 		id++
 	}
 
-	c.Res.Evaluations = id
+	c.Res.Evaluations = id + lr.fetched // model cases + segment pairs fetched and byte-compared
+	c.Res.ModelCases = id
 	c.Res.DistinctNontrivial = len(lr.distinct)
 	c.Res.Notes = append(c.Res.Notes, fmt.Sprintf("L1: %d MPD pairs, %d segment pairs fetched through period-relative and single-period URLs (%d distinct period-relative URLs answered 200 with identical bytes); L2: %d reduceS cases, %d splitPeriod cases", nLive, lr.fetched, len(lr.distinct), nReduce, nSplit))
 	c.Res.Rule = "L1: bundled assets (2 s, 6 s, 8 s, alternating 4 s/8 s, 2 s at timescale 12800, 2.002 s) with audio, video, stpp text/image subtitles and thumbnails x {Number, Timeline-Number, Timeline-Time} x periods-per-hour over all 45 divisors of 3600 plus non-divisors (quick) / all accepted values and a sample of rejected ones in 1..3600 (thorough) x instants at period boundaries +-1 ms, boundary + one segment, time-shift window edge on a boundary, boundary = window edge = loop wrap, stream start, ~1.7e12 ms x tsbd in {default, 10, 300, P, 2P} x continuous_1 on/off; L2: reduceS on random <S> lists (t absent/present, gaps, r in -2..7, equal and different durations, values near 2^64/2^32), splitPeriod on synthetic MPDs with periods-per-hour in {0, negative, 1..3600, > 3600}; distinct = distinct period-relative segment URLs answered 200 with the same bytes as the single-period URL"
